@@ -410,3 +410,30 @@ func H18Bootstrap() {
 		vndObserveF64("centre", s.Center)
 	}
 }
+
+// H18Dates: date normalisation maps every accepted spelling of an instant to one string, is
+// idempotent, and normalised strings sort chronologically. Concrete family of spellings
+// (compact form, offsets of both signs, fractions with and without trailing zeros, with the
+// +00:00 offset the normalised form itself uses); the solver picks the pair.
+var h18Spellings = [][]string{
+	{"20211229T213212", "2021-12-29T21:32:12+00:00", "2021-12-29T16:32:12-05:00", "2021-12-29T21:32:12.000+00:00", "2021-12-29T21:32:12.000000+00:00", "2021-12-30T02:32:12+05:00", "2021-12-29T21:32:12.0-00:00"},
+	{"2021-12-29T21:32:12.5+00:00", "2021-12-29T21:32:12.500000+00:00", "2021-12-29T16:32:12.50-05:00", "2021-12-29T21:32:12.500+00:00"},
+	{"20211230T000000", "2021-12-30T00:00:00+00:00", "2021-12-29T19:00:00.00-05:00", "2021-12-30T00:00:00.000000000+00:00"},
+}
+
+func H18Dates() {
+	i1, i2 := vndChoice("instant", 3), vndChoice("other-instant", 3)
+	s1 := h18Spellings[i1][vndChoice("spelling", 7)%len(h18Spellings[i1])]
+	s2 := h18Spellings[i2][vndChoice("other-spelling", 7)%len(h18Spellings[i2])]
+	n1, e1 := NormalizeDateString(s1)
+	n2, e2 := NormalizeDateString(s2)
+	vndReach("h18:dates")
+	vndAssert(e1 == nil && e2 == nil, "accepted-formats-are-accepted")
+	if e1 != nil || e2 != nil {
+		return
+	}
+	vndAssert((n1 == n2) == (i1 == i2), "same-instant-same-string")
+	vndAssert((n1 < n2) == (i1 < i2), "normalised-strings-sort-chronologically")
+	nn, e := NormalizeDateString(n1)
+	vndAssert(e == nil && nn == n1, "normalisation-is-idempotent")
+}
